@@ -6,6 +6,10 @@ from . import ConductorAbort
 # raised right away (see `defer_abort()`).
 _defer_depth = 0
 _abort_pending = False
+# Set once an abort was requested. Python discards exceptions raised inside
+# finalizers (`__del__()`), so raising `ConductorAbort` from the signal handler
+# is not always enough; `raise_if_abort_requested()` lets callers re-check.
+_abort_requested = False
 
 
 def register_signal_handlers():
@@ -14,7 +18,8 @@ def register_signal_handlers():
 
 
 def _terminate_handler(sig, frame):
-    global _abort_pending  # pylint: disable=global-statement
+    global _abort_pending, _abort_requested  # pylint: disable=global-statement
+    _abort_requested = True
     if _defer_depth > 0:
         _abort_pending = True
         return
@@ -37,3 +42,12 @@ def defer_abort():
         if _defer_depth == 0 and _abort_pending:
             _abort_pending = False
             raise ConductorAbort()
+
+
+def raise_if_abort_requested():
+    """
+    Raises `ConductorAbort` if SIGINT/SIGTERM was received at any earlier point,
+    even if the exception raised by the signal handler was lost.
+    """
+    if _abort_requested and _defer_depth == 0:
+        raise ConductorAbort()
